@@ -8,7 +8,9 @@
 (*   ParseSel {text, ok, strs, ident, reparse_same}: a real parse;         *)
 (*            accepted iff, when the parser accepted the text, the texts   *)
 (*            of its segments spell the whole input (a '.' may stand for   *)
-(*            '.?'), and print-then-parse gave the same segments.          *)
+(*            '.?'), print-then-parse gave the same segments and printing   *)
+(*            each segment from its parsed meaning gives its own text up   *)
+(*            to spelling (both folded into reparse_same by the recorder). *)
 (***************************************************************************)
 EXTENDS Selector
 
